@@ -229,7 +229,11 @@ func (t *Array) Process(ctx *ProcessContext, di *DataIndexer, accessor Accessor)
 	// Skip redundant bits post decoding.
 	if t.extensible && !ctx.isEncode {
 		// Skip redundant bits.
-		ito := i + int(ahead)*t.capacity
+		// Number of bits occupied by each element just processed (after the
+		// 16 bits ahead flag), the opponent's extra elements are of this size.
+		elementNbits := (ctx.i - i - 16) / t.capacity
+		// The opponent array occupies 16 + ahead * elementNbits bits.
+		ito := i + 16 + int(ahead)*elementNbits
 		if ito >= ctx.i {
 			ctx.i = ito
 		}
